@@ -28,6 +28,7 @@ import (
 	"encoding/json"
 	"fmt"
 	"io"
+	"math"
 	"net"
 	"os"
 	"path/filepath"
@@ -217,7 +218,7 @@ type C12UsageCase struct {
 	Phantoms []C12PhGen   `json:"phantoms"`
 	Reg      C12Registrar `json:"registrar"`
 	Base     vh.Hex       `json:"base"` // request i uses secret sha256(base || transport || i)
-	N        int          `json:"n"`
+	N        int          `json:"n"`    // lower bound on the requests per transport; the number actually sent is C12UsageN
 	V6Too    bool         `json:"v6_too"`
 }
 
@@ -230,7 +231,7 @@ var (
 	c12PhV6 = []string{"2001:48a8:687f:1::/64", "2002:c000:204::/48", "2620:10:2000::/52"}
 	// override subnets: mutually disjoint (so a substituted address identifies the subnet that was
 	// chosen); the last two are special: one overlaps a phantom subnet, one is IPv6.
-	c12OvDisjoint = []string{"10.1.0.0/16", "10.2.0.0/24", "10.3.3.0/28", "172.16.0.0/12", "100.64.0.0/10", "10.4.4.4/32", "10.5.0.0/31", "255.255.255.0/24"}
+	c12OvDisjoint = []string{"10.1.0.0/16", "10.2.0.0/24", "10.3.3.0/28", "172.16.0.0/12", "100.64.0.0/10", "10.4.4.4/32", "10.5.0.0/31", "255.255.255.0/24", "10.6.0.0/20", "10.7.7.0/24", "192.168.0.0/16", "10.8.0.0/30"}
 	c12OvSpecial  = []string{"192.122.190.128/25", "fd00:12::/64"}
 	c12ExPool     = []string{"192.122.190.0/24", "192.122.190.0/25", "141.219.0.0/17", "35.8.0.0/16", "203.0.113.64/27", "198.18.0.0/16", "8.8.8.0/24", "2001:48a8:687f:1::/64", "0.0.0.0/1"}
 	c12Gens       = []uint32{1, 957, 1164}
@@ -557,27 +558,30 @@ func C12Gen(rt *rapid.T, bidir bool) C12Case {
 	return c
 }
 
-// C12GenUsage draws one usage case: subnet overrides enforced at 100 % for both transports, 1-4
-// mutually disjoint override subnets per transport whose weights give each at least a 10 % share
-// (weights 1..3, at most 4 subnets: 1/(1+3+3+3) = 10 %), optionally extra zero-weight subnets (not
-// required to be used) and entries for other transports, in any order; no exclusion covers a
-// phantom subnet of the shipped configuration.
+// C12GenUsage draws one usage case: subnet overrides enforced, the override percentage of each
+// transport drawn from 5..100 (mostly below 100), 1-5 mutually disjoint weighted override subnets per
+// transport (weights 1..3, so the smallest share is >= 1/13), optionally extra zero-weight subnets
+// (must never be used) and entries for other transports, in any order; no exclusion covers a phantom
+// subnet of the shipped configuration. The number of requests follows from the case (C12UsageN).
 func C12GenUsage(rt *rapid.T) C12UsageCase {
-	u := C12UsageCase{Phantoms: C12DefaultPhantoms(), N: 400, V6Too: rapid.Bool().Draw(rt, "v6_too")}
+	u := C12UsageCase{Phantoms: C12DefaultPhantoms(), N: 0, V6Too: rapid.Bool().Draw(rt, "v6_too")}
 	u.Base = vh.Hex(rapid.SliceOfN(rapid.Byte(), 8, 8).Draw(rt, "base"))
 	r := C12Registrar{
-		Auth:      rapid.Bool().Draw(rt, "auth"),
-		KeySeed:   vh.Hex(bytes.Repeat([]byte{0x12}, 32)),
-		Enforce:   true,
-		PctMin:    100,
-		PctPrefix: 100,
+		Auth:    rapid.Bool().Draw(rt, "auth"),
+		KeySeed: vh.Hex(bytes.Repeat([]byte{0x12}, 32)),
+		Enforce: true,
 	}
+	// the override percentage is part of the case: mostly below 100 (the weighted choice must not
+	// depend on the draw that decided whether to override), sometimes exactly 100
+	pcts := []float64{5, 10, 12.5, 25, 33.3, 40, 50, 50, 60, 75, 90, 99.9, 100, 100, 100}
+	r.PctMin = rapid.SampledFrom(pcts).Draw(rt, "pct_min")
+	r.PctPrefix = rapid.SampledFrom(pcts).Draw(rt, "pct_prefix")
 	if rapid.Bool().Draw(rt, "rand_override") {
 		r.ParamOvr = []C12ParamOvr{{Kind: "rand"}}
 	}
 	perm := rapid.Permutation(c12OvDisjoint).Draw(rt, "cidrs")
-	kMin := rapid.IntRange(1, 4).Draw(rt, "k_min")
-	kPre := rapid.IntRange(1, 4).Draw(rt, "k_prefix")
+	kMin := rapid.SampledFrom([]int{1, 2, 2, 3, 3, 4, 5}).Draw(rt, "k_min")
+	kPre := rapid.SampledFrom([]int{1, 2, 2, 3, 3, 4, 5}).Draw(rt, "k_prefix")
 	next := 0
 	for i := 0; i < kMin; i++ {
 		r.Subnets = append(r.Subnets, C12OvrSubnet{CIDR: perm[next], Weight: float64(rapid.IntRange(1, 3).Draw(rt, "w_min")), Transport: "Min_Transport", Port: 443})
@@ -1592,7 +1596,36 @@ type C12UsageRow struct {
 	Count  int
 }
 
-// C12RunUsage sends N bidirectional requests per transport (Min, Prefix) through one registrar and
+// C12UsageN is the number of requests sent for one transport: with override probability p = pct/100
+// and s the smallest non-zero weight share among the transport's subnets, a correct (independent,
+// weighted) choice misses a given weighted subnet with probability (1 - p*s)^N <= exp(-N*p*s).
+// N = ceil(26 / (p*s)) gives <= exp(-26) < 5.2e-12 per subnet; with at most 10 weighted subnets per
+// case the false-alarm probability is < 5.2e-11 per case (< 1e-9 as required; < 1e-6 over the 16 000
+// cases of the thorough tier). The case's N is a lower bound (replay files written when N was fixed).
+func C12UsageN(u C12UsageCase, tname string) int {
+	pct := u.Reg.PctMin
+	if tname == "Prefix_Transport" {
+		pct = u.Reg.PctPrefix
+	}
+	total, least := 0.0, 0.0
+	for _, s := range u.Reg.Subnets {
+		if s.Transport == tname && s.Weight > 0 {
+			total += s.Weight
+			if least == 0 || s.Weight < least {
+				least = s.Weight
+			}
+		}
+	}
+	n := u.N
+	if total > 0 && pct > 0 {
+		if need := int(math.Ceil(26 / (pct / 100 * least / total))); need > n {
+			n = need
+		}
+	}
+	return n
+}
+
+// C12RunUsage sends C12UsageN bidirectional requests per transport (Min, Prefix) through one registrar and
 // counts which override subnet each substituted phantom came from.
 func C12RunUsage(e *C12Env, u C12UsageCase) (res C12Result, rows []C12UsageRow) {
 	selReg, _, err := e.selectors(u.Phantoms)
@@ -1620,8 +1653,19 @@ func C12RunUsage(e *C12Env, u C12UsageCase) (res C12Result, rows []C12UsageRow) 
 		if k >= 2 {
 			multi = true
 		}
+		pct := u.Reg.PctMin
+		if tt == pb.TransportType_Prefix {
+			pct = u.Reg.PctPrefix
+		}
+		n := C12UsageN(u, tname)
+		if pct < 100 {
+			res.class("percentage-below-100")
+			if k >= 2 {
+				res.class("percentage-below-100-with-several-weighted-subnets")
+			}
+		}
 		overridden := 0
-		for i := 0; i < u.N; i++ {
+		for i := 0; i < n; i++ {
 			h := sha256.Sum256(append(append([]byte(u.Base), byte(tt)), byte(i), byte(i>>8)))
 			// generation 957 of the shipped file has a v4-only group, so dual-stack requests use
 			// generation 1 (every group has both families)
@@ -1695,7 +1739,7 @@ func C12RunUsage(e *C12Env, u C12UsageCase) (res C12Result, rows []C12UsageRow) 
 				res.class("zero-weight-last")
 			}
 		}
-		if overridden < u.N {
+		if pct == 100 && overridden < n {
 			// not judged by itself (the property speaks about which subnets are used), but it is
 			// evidence and goes into the message of a never-chosen finding
 			res.class("requests-not-overridden-at-100-percent")
@@ -1717,8 +1761,13 @@ func C12RunUsage(e *C12Env, u C12UsageCase) (res C12Result, rows []C12UsageRow) 
 						tally = append(tally, fmt.Sprintf("%s(w=%g)=%d", r2.Subnet.CIDR, r2.Subnet.Weight, r2.Count))
 					}
 				}
-				res.bad("usage:subnet-never-chosen", "override subnet #%d %s for %s has weight %g (%.0f %% share) but was never chosen in %d registrations at 100 %% override (%d overridden, %d kept their own phantom); tally in configuration order: %s",
-					j, row.Subnet.CIDR, tname, row.Subnet.Weight, 100*row.Subnet.Weight/total, u.N, overridden, u.N-overridden, strings.Join(tally, " "))
+				res.bad("usage:subnet-never-chosen", "override subnet #%d %s for %s has weight %g (%.0f %% share) but was never chosen in %d registrations at %g %% override (%d overridden, %d kept their own phantom; %.0f hits expected); tally in configuration order: %s",
+					j, row.Subnet.CIDR, tname, row.Subnet.Weight, 100*row.Subnet.Weight/total, n, pct, overridden, n-overridden, float64(n)*pct/100*row.Subnet.Weight/total, strings.Join(tally, " "))
+			}
+		}
+		for j, row := range rows {
+			if row.Subnet.Transport == tname && row.Subnet.Weight <= 0 && row.Count > 0 {
+				res.bad("usage:zero-weight-subnet-chosen", "override subnet #%d %s for %s has weight %g but was chosen %d times in %d registrations at %g %% override", j, row.Subnet.CIDR, tname, row.Subnet.Weight, row.Count, n, pct)
 			}
 		}
 	}
